@@ -18,6 +18,8 @@ pub const MAIN: usize = usize::MAX - 1;
 pub const SITE_USER: u32 = 100;
 pub const SITE_EXIT: u32 = 101;
 pub const SITE_BLOCK: u32 = 102;
+/// harness yield inside a library call (payload destructor): never an op boundary
+pub const SITE_INNER: u32 = 103;
 pub const NSITES: usize = 104;
 
 thread_local! {
@@ -241,6 +243,7 @@ pub fn site_name(s: u32) -> &'static str {
         100 => "user",
         101 => "exit",
         102 => "block",
+        103 => "user.inner",
         _ => "?",
     }
 }
@@ -709,6 +712,16 @@ pub fn user_yield() {
     sim().threads[me].at_boundary = true;
     sim().step(me, SITE_USER, 0, 0, 0);
     sim().threads[me].at_boundary = false;
+}
+
+/// Yield point inside harness code that runs in the middle of a library call (a payload
+/// destructor during collection): schedulable like any other step, but not an op boundary.
+pub fn inner_yield() {
+    let me = my_tid();
+    if me == NONE || !sim_installed() {
+        return;
+    }
+    sim().step(me, SITE_INNER, 0, 0, 0);
 }
 
 // ---- running a simulation ----
